@@ -109,4 +109,168 @@ def get_function(path, qualname, root=None):
         body = found.body
     if not isinstance(node, ast.FunctionDef):
         raise KeyError('%s in %s is not a function' % (qualname, path))
-    return FunctionInfo(path, qualname, node, module, src, root)
+    info = FunctionInfo(path, qualname, node, module, src, root)
+    info.renamed = realign_locals(path, qualname, node)
+    return info
+
+
+# ---------------------------------------------------------------------------------------------------
+# alpha-renaming of locals.  Sidecar contracts name the function's local variables (loop invariants, ghost anchors).  A
+# maintainer who renames a local does not change behaviour, but the contract would no longer find its variable.  The lock
+# file contracts/locals.lock.json records, per function under contract, the locals in order of first assignment as they were
+# when the contract was written.  When the current function differs from that list by one-for-one replacements, the new names
+# are renamed back to the old ones IN THE EXTRACTED AST before verification conditions are generated.  This is a
+# behaviour-preserving transformation of the real code (checked: the old name occurs nowhere in the current function, the
+# mapping is injective, only function-scope locals are touched) and every obligation is still discharged on the result; a wrong
+# guess can therefore only make a proof fail, never succeed.
+
+_LOCK = None
+
+
+def ordered_locals(fn):
+    """function-scope locals in order of first binding (nested defs / lambdas / comprehensions are separate scopes)"""
+    out = []
+
+    def add(name):
+        if name not in out:
+            out.append(name)
+
+    def tgt(t):
+        if isinstance(t, ast.Name):
+            add(t.id)
+        elif isinstance(t, (ast.Tuple, ast.List)):
+            for e in t.elts:
+                tgt(e)
+        elif isinstance(t, ast.Starred):
+            tgt(t.value)
+
+    def visit(n):
+        if isinstance(n, (ast.FunctionDef, ast.AsyncFunctionDef, ast.Lambda, ast.ClassDef, ast.ListComp, ast.SetComp,
+                          ast.DictComp, ast.GeneratorExp)):
+            return
+        if isinstance(n, ast.Assign):
+            visit(n.value)
+            for t in n.targets:
+                tgt(t)
+            return
+        if isinstance(n, (ast.AugAssign, ast.AnnAssign)):
+            if n.value is not None:
+                visit(n.value)
+            tgt(n.target)
+            return
+        if isinstance(n, ast.NamedExpr):
+            visit(n.value)
+            tgt(n.target)
+            return
+        if isinstance(n, (ast.For, ast.AsyncFor)):
+            visit(n.iter)
+            tgt(n.target)
+            for b in n.body + n.orelse:
+                visit(b)
+            return
+        if isinstance(n, (ast.With, ast.AsyncWith)):
+            for it in n.items:
+                visit(it.context_expr)
+                if it.optional_vars is not None:
+                    tgt(it.optional_vars)
+            for b in n.body:
+                visit(b)
+            return
+        if isinstance(n, ast.ExceptHandler) and n.name:
+            add(n.name)
+        for c in ast.iter_child_nodes(n):
+            visit(c)
+    for stmt in fn.body:
+        visit(stmt)
+    params = {a.arg for a in fn.args.args + fn.args.kwonlyargs + fn.args.posonlyargs}
+    if fn.args.vararg:
+        params.add(fn.args.vararg.arg)
+    if fn.args.kwarg:
+        params.add(fn.args.kwarg.arg)
+    return [x for x in out if x not in params]
+
+
+def loop_shape(fn):
+    """kinds of the loops of the function in pre-order (the numbering LoopSpec ordinals refer to), with nesting depth"""
+    out = []
+
+    def visit(n, depth):
+        for ch in ast.iter_child_nodes(n):
+            if isinstance(ch, (ast.FunctionDef, ast.Lambda)) and ch is not fn:
+                continue
+            if isinstance(ch, (ast.For, ast.While)):
+                out.append('%s@%d' % (type(ch).__name__, depth))
+                visit(ch, depth + 1)
+            else:
+                visit(ch, depth)
+    visit(fn, 0)
+    return out
+
+
+def structure_changed(path, qualname, fn):
+    """None, or a description of how the loop structure differs from the one the contract was written against"""
+    ent = _lock().get('%s::%s' % (path, qualname))
+    if not isinstance(ent, dict) or 'loops' not in ent:
+        return None
+    cur = loop_shape(fn)
+    if cur != ent['loops']:
+        return 'loops were %s, now %s' % (ent['loops'] or 'none', cur or 'none')
+    return None
+
+
+def _lock():
+    global _LOCK
+    if _LOCK is None:
+        import json
+        p = os.path.join(os.path.dirname(os.path.dirname(os.path.abspath(__file__))), 'contracts', 'locals.lock.json')
+        try:
+            _LOCK = json.load(open(p))
+        except Exception:
+            _LOCK = {}
+    return _LOCK
+
+
+def realign_locals(path, qualname, fn):
+    if os.environ.get('PYVC_NO_REALIGN'):
+        return {}
+    old = _lock().get('%s::%s' % (path, qualname))
+    if isinstance(old, dict):
+        old = old.get('locals')
+    if not old:
+        return {}
+    new = ordered_locals(fn)
+    if new == old:
+        return {}
+    import difflib
+    pairs = []
+    for tag, i1, i2, j1, j2 in difflib.SequenceMatcher(None, old, new, autojunk=False).get_opcodes():
+        if tag == 'replace' and i2 - i1 == j2 - j1:
+            pairs += list(zip(old[i1:i2], new[j1:j2]))
+    if not pairs:
+        return {}
+    every = set()            # every identifier that occurs anywhere in the current function (any scope)
+    inner_bound = set()      # names bound in nested scopes (parameters of nested defs / lambdas, comprehension targets)
+    for n in ast.walk(fn):
+        if isinstance(n, ast.Name):
+            every.add(n.id)
+        elif isinstance(n, ast.arg):
+            every.add(n.arg)
+            inner_bound.add(n.arg)
+        elif isinstance(n, ast.comprehension):
+            for m in ast.walk(n.target):
+                if isinstance(m, ast.Name):
+                    inner_bound.add(m.id)
+        elif isinstance(n, (ast.Global, ast.Nonlocal)):
+            inner_bound.update(n.names)
+    params = {a.arg for a in fn.args.args + fn.args.kwonlyargs + fn.args.posonlyargs}
+    mapping = {}
+    for o, nw in pairs:
+        if o in every or nw in old or nw in params or nw in inner_bound or nw in mapping or o in mapping.values():
+            continue
+        mapping[nw] = o
+    if not mapping:
+        return {}
+    for n in ast.walk(fn):
+        if isinstance(n, ast.Name) and n.id in mapping:
+            n.id = mapping[n.id]
+    return mapping
